@@ -35,10 +35,11 @@ pub fn gen(r: &mut Rng, _i: u64) -> String {
             _ => { if next < n { ops.push(format!("n{next}")); live.push(next); next += 1; } }
         }
     }
-    // afterwards the info is there: everybody still waiting is polled until nothing changes, and a late request asks too
+    // afterwards the info is there: a late request asks too, and everybody still waiting is polled in rounds - the lock is fair,
+    // so in the worst case one waiter gets through per round: as many rounds as there are waiters, and one more
     if !sent { ops.push("s".into()); }
     ops.push(format!("n{next}")); live.push(next);
-    for _ in 0..3 { for i in &live { ops.push(format!("p{i}")); } }
+    for _ in 0..live.len() + 1 { for i in &live { ops.push(format!("p{i}")); } }
     format!("{kind} ; {}", ops.join(" "))
 }
 
